@@ -125,11 +125,37 @@ def check_rans(ctx, prog):
         if len(ps) == 2:
             rs.compare(ctx, 'C05.RANS-CLOSURE', 'rans_sa|s-regular', ps[0][1], s1, fs.where, 'rans_sa::s (Sbar >= -cv2 du)')
             rs.compare(ctx, 'C05.RANS-CLOSURE', 'rans_sa|s-modified', ps[1][1], s2, fs.where, 'rans_sa::s (negative-S modification)')
+        # r = min(nu/(S kappa^2 eta^2), 10), however the selection is written (if, ternary, std::min, either comparison)
         ok = len(pr) == 2
-        if ok:
-            c0 = pr[0][0][0] if pr[0][0] else None
-            ok = c0 is not None and c0[0] == 'cmp' and c0[1] == '>' and poly.equal(poly.from_term(c0[2]), rt) and poly.equal(poly.from_term(c0[3]), poly.const(10))
-        ctx.ob('C05.RANS-CLOSURE', 'rans_sa|r-limiter', ok, fr.where, 'rans_sa::r does not limit nu/(S kappa^2 eta^2) at 10', sample='r = min(nu/(S kappa^2 d^2), 10)')
+        why_r = 'rans_sa::r has %d alternatives, expected the two of min(nu/(S kappa^2 eta^2), 10)' % len(pr)
+        ten = poly.const(10)
+        for conds_r, val_r in (pr if ok else []):
+            rel = None
+            for c0 in conds_r:
+                neg = False
+                while c0[0] == 'not':
+                    neg = not neg
+                    c0 = c0[1]
+                if c0[0] != 'cmp' or c0[1] not in ('<', '<=', '>', '>='):
+                    continue
+                try:
+                    A_, B_ = poly.from_term(c0[2]), poly.from_term(c0[3])
+                except ValueError:
+                    continue
+                if poly.equal(A_, rt) and poly.equal(B_, ten):
+                    gt = c0[1] in ('>', '>=')
+                elif poly.equal(B_, rt) and poly.equal(A_, ten):
+                    gt = c0[1] in ('<', '<=')
+                else:
+                    continue
+                rel = gt != neg
+            if rel is None:
+                ok, why_r = False, 'an alternative of rans_sa::r is not selected by comparing nu/(S kappa^2 eta^2) with 10'
+            elif rel and not poly.equal(val_r, ten):
+                ok, why_r = False, 'rans_sa::r is %s where nu/(S kappa^2 eta^2) exceeds 10' % poly.fmt(val_r, 2)[:60]
+            elif not rel and not poly.equal(val_r, rt):
+                ok, why_r = False, 'rans_sa::r is %s where nu/(S kappa^2 eta^2) is below 10' % poly.fmt(val_r, 2)[:60]
+        ctx.ob('C05.RANS-CLOSURE', 'rans_sa|r-limiter', ok, fr.where, why_r, sample='r = min(nu/(S kappa^2 d^2), 10)')
         if len(pr) == 2:
             rs.compare(ctx, 'C05.RANS-CLOSURE', 'rans_sa|r-limited', pr[0][1], poly.const(10), fr.where, 'rans_sa::r (limited)')
             rs.compare(ctx, 'C05.RANS-CLOSURE', 'rans_sa|r-regular', pr[1][1], rt, fr.where, 'rans_sa::r')
